@@ -138,4 +138,88 @@ example : Reach ((([.subscribe false, .subscribe true, .direct (.pushBack 1), .d
     .direct (.pushBack 3), .txnBegin, .txnOp (.set 0 9), .txnCommit, .poll 1] : List (VEv Nat)).foldl OV.vstep (OV.new 1))) :=
   ⟨1, _, by decide, rfl⟩
 
+/-- poll receiver `i` `n` times with nothing happening in between, collecting the diffs handed out -/
+def pollN {α} (s : OV α) (i : Nat) : Nat → OV α × List (Diff α)
+  | 0 => (s, [])
+  | n + 1 =>
+    match s.poll i with
+    | some (it, s') => let r := pollN s' i n; (r.1, (itemDiffs it).getD [] ++ r.2)
+    | none => (s, [])
+
+theorem poll_isSome {α} (s : OV α) (i : Nat) (r : Sub α) (h : s.subs[i]? = some r) (ha : r.alive = true) :
+    ∃ it s', s.poll i = some (it, s') := by
+  unfold OV.poll
+  simp only [h, ha, Bool.not_true, Bool.false_eq_true, if_false]
+  exact ⟨_, _, rfl⟩
+
+/-- **C05: what is received does not depend on how often the subscriber is polled.** A receiver that has not lagged
+    and is polled until it has caught up — any number of polls at least the number of pending diffs for the plain
+    flavour, one poll for the batched flavour — receives exactly the diffs published since its cursor, in order:
+    the same list for both flavours, whenever the polls happen. -/
+theorem c05_drain_delivers_owed {α} (n : Nat) : ∀ (s : OV α), VInv s → ∀ (i : Nat) (r : Sub α), s.subs[i]? = some r → r.alive = true →
+    ¬ (r.next + s.B < s.log.length) → (owed s.log r).length ≤ n →
+    (pollN s i n).2 = owed s.log r ∧
+    ∃ r', (pollN s i n).1.subs[i]? = some r' ∧ owed (pollN s i n).1.log r' = [] ∧ r'.replica = some s.vals := by
+  induction n with
+  | zero =>
+    intro s hv i r hr ha _ hlen
+    have ho : owed s.log r = [] := List.eq_nil_of_length_eq_zero (by omega)
+    obtain ⟨_, _, rep, g3, g4⟩ := hv.subs i r hr ha
+    rw [ho] at g4; simp [applyAll] at g4; subst g4
+    exact ⟨by simp [pollN, ho], r, hr, ho, g3⟩
+  | succ n ih =>
+    intro s hv i r hr ha hnl hlen
+    obtain ⟨it, s', hp⟩ := poll_isSome s i r hr ha
+    obtain ⟨r0, r', rep, h1, h2, h3, h4, ⟨h5, ha'⟩, hc⟩ := poll_cases s s' i it hv hp
+    rw [hr] at h1; cases h1
+    have hv' := vinv_poll s s' i it hv hp
+    obtain ⟨r1, hs1, _, _, hs'⟩ := poll_unfold s s' i it hp
+    rw [hr] at hs1; cases hs1
+    have hlog : s'.log = s.log := by rw [hs']
+    have hB : s'.B = s.B := by rw [hs']
+    have hvals : s'.vals = s.vals := by rw [hs']
+    have hil : i < s.subs.length := by rcases List.getElem?_eq_some_iff.mp hr with ⟨g, _⟩; exact g
+    have hr'n : r'.next = (s.pollOf r).2.next := by
+      rw [hs'] at h2; simp only [List.getElem?_set_self hil] at h2; cases h2; rfl
+    have hge : r.next ≤ (s.pollOf r).2.next := by
+      have g2 := (hv.subs i r hr ha).2.1
+      simp only [OV.pollOf]
+      split
+      · exact (pollBatched_frame s.B s.log (!s.alive) r hv.window g2).2.2.2.1
+      · exact (pollPlain_frame s.B s.log (!s.alive) r hv.window g2).2.2.2.1
+    simp only [pollN, hp]
+    rcases hc with ⟨hpd, ho, ho'⟩ | ⟨ds, hds, _, ho⟩ | ⟨_, hrest, hlag, _⟩
+    · -- Pending / End: nothing was owed
+      have hnext : ¬ (r'.next + s'.B < s'.log.length) := by
+        rw [hr'n, hB, hlog]; omega
+      obtain ⟨e1, r'', e2, e3, e4⟩ := ih s' hv' i r' h2 ha' hnext (by rw [hlog, ho']; simp)
+      have hit : (itemDiffs it).getD [] = [] := by rcases hpd with ⟨rfl, _⟩ | ⟨rfl, _⟩ <;> rfl
+      rw [hit, e1, hlog, ho', ho]
+      exact ⟨rfl, r'', e2, e3, by rw [e4, hvals]⟩
+    · have hnext : ¬ (r'.next + s'.B < s'.log.length) := by
+        rw [hr'n, hB, hlog]; omega
+      have hit : (itemDiffs it).getD [] = ds := by
+        rcases hds with rfl | ⟨d, rfl, rfl⟩ <;> rfl
+      have hds_ne : ds ≠ [] ∨ ds = [] := by by_cases h : ds = [] <;> simp [h]
+      have hlen' : (owed s'.log r').length ≤ n ∨ ds = [] := by
+        rcases hds_ne with hne | he
+        · left
+          rw [hlog]
+          have : (owed s.log r).length = ds.length + (owed s.log r').length := by rw [ho]; simp
+          have : 0 < ds.length := List.length_pos_iff.mpr hne
+          omega
+        · right; exact he
+      rcases hlen' with hl' | he
+      · obtain ⟨e1, r'', e2, e3, e4⟩ := ih s' hv' i r' h2 ha' hnext hl'
+        rw [hit, e1, hlog, ho]
+        exact ⟨rfl, r'', e2, e3, by rw [e4, hvals]⟩
+      · -- an empty batch cannot happen (no empty message is ever published); handled for completeness
+        subst he
+        have : (owed s'.log r').length ≤ n + 1 := by rw [hlog]; rw [ho] at hlen; simpa using hlen
+        exfalso
+        rcases hds with rfl | ⟨d, _, hd⟩
+        · exact sub_no_empty_batch s s' i (.batch []) hv.no_empty hp rfl
+        · cases hd
+    · exact absurd hlag hnl
+
 end EV
